@@ -176,12 +176,19 @@ type c16Prog struct {
 	files  map[string][]*c16El
 	layout bool
 	wrap   map[string]int // how a component file is wrapped: 0 not at all, 1 <template v-if>, 2 <template v-for>, 3 v-if/v-else
+	spell  map[string]int // how a file spells the directive: attribute names are case-insensitive in HTML
 }
+
+// spellings of the directive that the HTML parser reads as the attribute v-once
+var c16Spellings = []string{" v-once", " V-ONCE", " v-Once", ` v-once=""`}
 
 func (p c16Prog) fs(real bool) fstest.MapFS {
 	m := fstest.MapFS{}
 	for name, es := range p.files {
 		src := c16Src(name, es, real)
+		if real && p.spell[name] > 0 {
+			src = strings.ReplaceAll(src, " v-once", c16Spellings[p.spell[name]%len(c16Spellings)])
+		}
 		if name == "page.vuego" && p.layout {
 			src = "---\nlayout: lay\n---\n" + src
 		}
@@ -382,7 +389,7 @@ func init() { streams["C16"] = runC16 }
 
 func runC16(r *Run) {
 	r.Imports = []string{"Model.Once"}
-	r.Rule("programs with v-once elements at top level, nested in one another, inside v-for over 2-3 items, inside components included 1..n times (also from loops and from other components), in two different components and in a layout; " +
+	r.Rule("programs with v-once elements (the directive spelled v-once, V-ONCE, v-Once or v-once=\"\", one spelling per file) at top level, nested in one another, inside v-for over 2-3 items, inside components included 1..n times (also from loops and from other components), in two different components and in a layout; " +
 		"every entry point (Vue.Render, Vue.RenderFragment, Vue.RenderNodes on nodes the caller parsed, Load().Render and RenderFile with and without a layout, RenderString); each program rendered twice on one engine, then once more after a render of the same page that fails at its very end; " +
 		"the expanded forest comes from rendering the same program with v-once renamed to a marker attribute; (shorthand) pages of nested component includes with v-once, v-for, v-if, bound attributes and slot content on the include itself, written once as <template include> and once as registered shorthand tags: the two must render the same bytes; non-trivial: some marked element is instantiated >= 2 times or >= 2 marked elements exist")
 	r.Assume("the keys written by the harness (file#element, prefixed by the layout link) identify source elements; the model is told nothing about the implementation's own id scheme")
@@ -401,6 +408,7 @@ func runC16(r *Run) {
 		p.files["a.vuego"] = g.tree(1, nil)
 		p.files["b.vuego"] = g.tree(1, []string{"a.vuego"})
 		p.wrap = map[string]int{"a.vuego": Pick(rr, []int{0, 0, 1, 2, 3}), "b.vuego": Pick(rr, []int{0, 0, 0, 1, 2})}
+		p.spell = map[string]int{"a.vuego": Pick(rr, []int{0, 0, 1, 2, 3}), "b.vuego": Pick(rr, []int{0, 0, 1, 2, 3}), "page.vuego": Pick(rr, []int{0, 0, 0, 1, 3})}
 		g.slots = false
 		p.files["page.vuego"] = g.tree(2, []string{"a.vuego", "b.vuego", "a.vuego"})
 		entry := Pick(rr, entries)
